@@ -42,9 +42,31 @@ class PairNests:
         self.problems = []
         self.tri = None
         self.per = None
+        self.n.aliases = self._sequence_aliases(body)
         self.n.summarise_fill_loops(opaque=OPAQUE, seq_sources=SEQS)
         for bi, t in self.leafs:
             self._analyse(bi, t)
+
+    def _sequence_aliases(self, body):
+        """The state's relative placements spelled out (`occupied_sites.iter().flat_map(OccupiedSite::positions)`, e.g. a shared
+        helper spliced into cartesian_positions) are the sequence `relative_positions(self)`: the value of the accessor's own
+        body, evaluated once, is an alias of the call."""
+        from .sym import SymEx
+        out = {}
+        adt = self.f.norm(body.impl_self_adt or '')
+        rp = self.f.one(self_adt=adt, name='relative_positions') if adt else None
+        if rp is None:
+            return out
+        sx = SymEx(self.f)
+        try:
+            outs = sx.run(rp, [SYM('self')])
+        except Exception:      # noqa: BLE001
+            return out
+        if len(outs) == 1 and not sx.aborted:
+            v = sx.deep(outs[0].st, outs[0].ret)
+            if isinstance(v, tuple) and v[0] == 'app':
+                out[repr(v)] = APP('%s::relative_positions' % adt.rsplit('::', 1)[-1], SYM('self'))
+        return out
 
     # ------------------------------------------------------------------------------------------------------
     def _rel_base(self, v):
